@@ -37,6 +37,9 @@ def parse_terse(out: str) -> Dict[str, dict]:
             h["status"] = "SUCCESSFUL" if "SUCCESSFUL" in line else "FAILED"
             if h.get("tool_failure"):
                 h["status"] = "TOOL"
+            elif h["status"] == "FAILED" and not h["failed_checks"]:
+                # a failure without a failed check is the back end giving up (memory, time), not a refuted assertion
+                h["status"] = "TOOL"
         m = re.match(r"Verification Time: ([0-9.]+)s", line)
         if m:
             h["time_s"] = float(m.group(1))
@@ -82,7 +85,8 @@ def run_baa_kernels(repo: str, scratch: str, tier: str, only: Optional[List[str]
     shutil.copy(os.path.join(repo, "Cargo.lock"), os.path.join(crate, "Cargo.lock"))
     widths = widths or (QUICK_WIDTHS if tier == "quick" else THOROUGH_WIDTHS)
     cheap = QUICK_CHEAP if (tier == "quick" and widths == QUICK_WIDTHS) else []
-    text, names = gen_baa.gen(widths, cheap, 64 if tier == "quick" else 128)
+    usage = eval_arm_usage(repo)
+    text, names = gen_baa.gen(widths, cheap, 64 if tier == "quick" else 128, usage)
     # only the baa operations that patronus actually calls are obligations of patronus (C06: "every operator used by an arm")
     used, unused = used_baa_ops(repo)
     def op_of(n):
@@ -103,7 +107,21 @@ def run_baa_kernels(repo: str, scratch: str, tier: str, only: Optional[List[str]
         for op in skipped:
             text = re.sub(r"    #\[kani::proof\]\n    #\[kani::unwind\(4\)\]\n    fn k_" + re.escape(op) + r"_w\d+\(\) \{\n.*?\n    \}\n", "", text, flags=re.S)
         open(os.path.join(crate, "src", "lib.rs"), "w").write(text)
-    res, raw, dt = run_kani(crate, only, jobs=int(os.environ.get("VERIF_KANI_JOBS", "10")), timeout_s=1500 if tier == "quick" else 14000)
+    jobs = int(os.environ.get("VERIF_KANI_JOBS", "10" if tier == "quick" else "7"))
+    res, raw, dt = run_kani(crate, only, jobs=jobs, timeout_s=1500 if tier == "quick" else 14000)
+    # second pass: harnesses the back end gave up on (memory / time under parallel load) are re-run two at a time with a large budget
+    def short(k):
+        return k.split("::")[-1]
+    got = {short(k): v for k, v in res.items()}
+    again = [n for n in names if (not only or any(f in n for f in only)) and (got.get(n) is None or got[n]["status"] in (None, "TOOL"))]
+    second_pass = []
+    if again and len(again) <= 60:
+        res2, raw2, dt2 = run_kani(crate, again, jobs=2, timeout_s=3000 if tier == "quick" else 14000, mem_kb=28000000, extra=["--exact"] if False else None)
+        dt += dt2
+        for k, v in res2.items():
+            if short(k) in again and v["status"] not in (None, "TOOL"):
+                res[k] = v
+                second_pass.append(short(k))
     obls = []
     for n in names:
         if only and not any(f in n for f in only):
@@ -131,10 +149,46 @@ def run_baa_kernels(repo: str, scratch: str, tier: str, only: Optional[List[str]
                 obls.append(Obligation(oid, "KL", "baa_kernels", n, "failed", "kani/cbmc+cadical", r["time_s"] or 0.0,
                                        detail={"errors": [{"message": x} for x in fc] or [{"message": "Kani: VERIFICATION FAILED"}]}, kind=kind,
                                        src="baa (dependency pinned by /repo/Cargo.lock)"))
-    info = {"unit": "baa_kernels", "engine": "KL", "widths": widths, "cheap_only_widths": cheap, "baa_ops_not_called_by_patronus": skipped, "harnesses": len(names), "wall_s": round(dt, 1),
+    info = {"unit": "baa_kernels", "engine": "KL", "second_pass": second_pass, "arm_bodies_used": {k: v[1] for k, v in usage.items()}, "widths": widths, "cheap_only_widths": cheap, "baa_ops_not_called_by_patronus": skipped, "harnesses": len(names), "wall_s": round(dt, 1),
             "checker_cmd": f"cargo kani -j N --output-format terse   (crate generated by kl/gen_baa.py, widths {widths})",
             "bound": f"complete over all operand values at each width in {widths}; mul above 16 bits only against 8 stated second operands (bounded)"}
     return obls, info, crate
+
+
+def eval_arm_usage(repo: str):
+    """{baa op: (closure params, closure body)} for the evaluator arms of eval.rs whose closure is not the bare baa call"""
+    sys.path.insert(0, VERIF)
+    from vx.extract import Source, find_match, match_arms
+    from vx.arms import closure_call
+    src = Source(os.path.join(repo, "patronus/src/expr/eval.rs"), "patronus/src/expr/eval.rs") if False else None
+    text = open(os.path.join(repo, "patronus/src/expr/eval.rs"), encoding="utf-8").read()
+    i = text.find("fn eval_expr_internal")
+    if i < 0:
+        return {}
+    body = text[i:]
+    try:
+        arms = match_arms(body, find_match(body, 0, "expr"))
+    except Exception:
+        return {}
+    usage = {}
+    arm_op = {"BVAnd": "and", "BVOr": "or", "BVXor": "xor", "BVAdd": "add", "BVSub": "sub", "BVMul": "mul", "BVShiftLeft": "shift_left",
+              "BVShiftRight": "shift_right", "BVArithmeticShiftRight": "arithmetic_shift_right", "BVNot": "not", "BVNegate": "negate"}
+    for a in arms:
+        m = re.search(r"Expr::([A-Za-z]+)", a.pat)
+        op = arm_op.get(m.group(1)) if m else None
+        if not op or "|" in a.pat:
+            continue
+        for helper in ("un_op", "bin_op"):
+            cc = closure_call(a.body, helper)
+            if not cc:
+                continue
+            params, expr = cc
+            expr = re.sub(r"//[^\n]*", "", expr)
+            norm = re.sub(r"\s+", "", expr)
+            plain = f"{params[0]}.{op}(&{params[1]})" if len(params) == 2 else f"{params[0]}.{op}()"
+            if norm != plain:
+                usage[op] = (params, re.sub(r"\s+", " ", expr).strip())
+    return usage
 
 
 _BAA_OPS = ["and", "or", "xor", "add", "sub", "mul", "shift_left", "shift_right", "arithmetic_shift_right", "not", "negate",
